@@ -278,6 +278,8 @@ theorem finishDataPage_clean (fx : Fixes) (L : Libs) (verify : Bool) (mode : Mod
           subst hst
           simp only [hok, Bool.false_eq_true, if_false]
           split
+          · simp [Load.pure]
+          split
           · rw [andThen_result']
             unfold viewPage
             simp only
